@@ -373,6 +373,10 @@ def run_case(c):
     try:
         im = ir.serde.deserialize_model(onnx.ModelProto.FromString(model.SerializeToString()))
         res["count"] = P.RewriteRuleSet([make_rule(r) for r in c["rules"]], commute=c["commute"]).apply_to_model(im)
+        try:
+            res["real_after_apply"] = abs_model(ir.serde.serialize_model(im))
+        except Exception as e:  # noqa: BLE001 - judged on the result of rewrite() below
+            res["real_after_apply"] = f"{type(e).__name__}: {str(e)[:200]}"
     except Exception as e:  # noqa: BLE001
         res["prop"].append(f"apply_to_model raised {type(e).__name__}: {str(e)[:200]}")
         res["raised"] = True
@@ -424,7 +428,8 @@ def run_case(c):
         if nm in ri and ri[nm] != k:
             res["prop"].append(f"frame: initializer {nm} changed from {k} to {ri[nm]}")
     # progress: judged on the result itself (every generated rule has a name, so a replacement node carries the rule tag)
-    if c["any"] and not any(n["rule"] for n in real_nodes):
+    # (a rewritten instance may be dead code that the clean-up passes then remove: the count also counts)
+    if c["any"] and res["count"] == 0 and not any(n["rule"] for n in real_nodes):
         res["prop"].append("progress: an applicable instance exists but nothing was rewritten")
     return res
 
@@ -515,6 +520,10 @@ def judge(ctx, c, r, stats):
         ok, why = iso_model(c["final"], r["real"])
         if not ok:
             mism.append("final model differs: " + "; ".join(why[:3]))
+        if isinstance(r.get("real_after_apply"), dict) and "after" in c:
+            ok, why = iso_model(c["after"], r["real_after_apply"])
+            if not ok:
+                mism.append("model after apply_to_model() differs: " + "; ".join(why[:3]))
     if mism:
         stats["mismatch"] += 1
         if stats["mismatch"] <= 8:
